@@ -16,7 +16,7 @@ META = dict(
         quick="volume: 1..3 symbolic cell vectors (all reals) + shapes (3,), (0,3), (4,3); "
               "set_four_index_element: all integer index quadruples and probe positions (unbounded ints); "
               "check_dm: n<=3 symbolic occupations, eps, occ_max; derive_naturals: set-up for n<=3, "
-              "full semantics n=1; strtobool: CrossHair, len<=5",
+              "full semantics n=1; strtobool: CrossHair, len<=5, and every documented word under a symbolic upper/lower case mask",
         thorough="as quick + derive_naturals semantics n=2 (NRA, may stay unknown), strtobool len<=6"),
     outside=["LAPACK eigh itself (replaced by its documented contract)", "matrix sizes >= 4",
              "floating-point rounding (exact real arithmetic)"],
@@ -282,4 +282,6 @@ def jobs(tier):
                        budget_s=400, validate=False))
     out.append(job("C20", "crosshair[strtobool]", "harness.ch_contracts", "check_strtobool",
                    dict(file="harness/ch_contracts.py", func="check_strtobool", timeout=25 if tier == "quick" else 120), kind="crosshair"))
+    out.append(job("C20", "crosshair[strtobool-case]", "harness.ch_contracts", "check_strtobool_case",
+                   dict(file="harness/ch_contracts.py", func="check_strtobool_case", timeout=25 if tier == "quick" else 120), kind="crosshair"))
     return out
